@@ -1,4 +1,205 @@
-(** Harness glue for C16 (stub: no families yet). *)
-From Coq Require Import List String.
-From KV Require Import Glue.Val.
-Definition c16_run (fam : string) (args : list val) : option string := None.
+(** Harness glue for C16: one line per pair of values carrying every comparison function and
+    macro form that applies to the type (see harness/src/c16.rs for the field list). *)
+From Coq Require Import List ZArith Bool String.
+From KV Require Import Base.Prelude Model.Cmp Glue.Val.
+Import ListNotations.
+Local Open Scope string_scope.
+
+Definition sh_ord (o : comparison) : string :=
+  match o with Lt => "L" | Eq => "E" | Gt => "G" end.
+Definition sh_ob (o : option bool) : string :=
+  match o with Some b => show_bool b | None => "PANIC" end.
+Definition sh_oo (o : option comparison) : string :=
+  match o with Some c => sh_ord c | None => "PANIC" end.
+
+(** the four Option combinations of a pair: (Some l,Some r) (Some l,None) (None,Some r) (None,None) *)
+Definition four {A R} (f : option A -> option A -> R) (sh : R -> string) (l r : A) : string :=
+  sh (f (Some l) (Some r)) ++ sh (f (Some l) None) ++ sh (f None (Some r)) ++ sh (f None None).
+
+(** [assertc_eq!] / [assertc_ne!] on the result of the type's [const_eq] *)
+Definition sh_assert_eq (e : option bool) : string :=
+  match e with None => "PANIC" | Some b => if assertc_eq_panics_m b then "PANIC" else "ok" end.
+Definition sh_assert_ne (e : option bool) : string :=
+  match e with None => "PANIC" | Some b => if assertc_ne_panics_m b then "PANIC" else "ok" end.
+
+(** slices of a primitive type *)
+Definition c16_slice (l r : list Z) : string :=
+  let e := sh_ob (eq_slice_m l r) in
+  let c := sh_oo (cmp_slice_m l r) in
+  let fe := sh_ob (eq_for_slice_m prim_eq_o l r) in
+  let fc := sh_oo (cmp_for_slice_m prim_cmp_o l r) in
+  let oe := four (option_eq_m eq_slice_m) sh_ob l r in
+  let oc := four (option_cmp_m cmp_slice_m) sh_oo l r in
+  let coe := four (option_eq_m const_eq_slice_m) sh_ob l r in
+  let coc := four (option_cmp_m const_cmp_slice_m) sh_oo l r in
+  show_fields
+    [("eq", e); ("cmp", c);
+     ("ceq", sh_ob (const_eq_slice_m l r)); ("ccmp", sh_oo (const_cmp_slice_m l r));
+     ("feq", fe); ("feqk", fe); ("feq2", fe); ("feqp", fe);
+     ("fcmp", fc); ("fcmpk", fc); ("fcmp2", fc); ("fcmpp", fc);
+     ("oeq", oe); ("ocmp", oc); ("coeq", coe); ("cocmp", coc); ("foeq", coe); ("focmp", coc)].
+
+Definition c16_slice_alias (l r : list Z) : string :=
+  show_fields
+    [("eq", sh_ob (eq_slice_m l r)); ("cmp", sh_oo (cmp_slice_m l r));
+     ("oeq", four (option_eq_m eq_slice_m) sh_ob l r);
+     ("ocmp", four (option_cmp_m cmp_slice_m) sh_oo l r)].
+
+(** scalars of a primitive type *)
+Definition c16_scalar (a b : Z) : string :=
+  let e := show_bool (const_eq_prim_m a b) in
+  let c := sh_ord (cmp_int_m a b) in
+  let oe := four (option_eq_m prim_eq_o) sh_ob a b in
+  let oc := four (option_cmp_m prim_cmp_o) sh_oo a b in
+  show_fields
+    [("cmp", c); ("ceq", e); ("ccmp", sh_ord (const_cmp_prim_m a b));
+     ("oeq", oe); ("ocmp", oc); ("coeq", oe); ("cocmp", oc);
+     ("foeq", oe); ("focmp", oc); ("foeq2", oe); ("focmp2", oc);
+     ("aeq", sh_assert_eq (Some (const_eq_prim_m a b)));
+     ("ane", sh_assert_ne (Some (const_eq_prim_m a b)))].
+
+(** NonZero integers ([get()] then the integer comparison) *)
+Definition c16_nonzero (a b : Z) : string :=
+  let e := show_bool (prim_eq_m a b) in
+  let c := sh_ord (cmp_int_m a b) in
+  let oe := four (option_eq_m prim_eq_o) sh_ob a b in
+  let oc := four (option_cmp_m prim_cmp_o) sh_oo a b in
+  show_fields
+    [("eq", e); ("cmp", c); ("ceq", e); ("ccmp", c);
+     ("oeq", oe); ("ocmp", oc); ("coeq", oe); ("cocmp", oc); ("foeq", oe); ("focmp", oc)].
+
+Definition as_pair (v : val) : Z * Z :=
+  match as_list v with
+  | [a; b] => (as_Z a, as_Z b)
+  | _ => (0, 0)
+  end.
+
+(** ranges: Range and RangeInclusive, named function / const_eq! / const_eq_for! *)
+Definition c16_range (l r : Z * Z) : string :=
+  let e := show_bool (eq_range_m l r) in
+  let fe := sh_ob (eq_for_range_m prim_eq_o l r) in
+  show_fields
+    [("eq", e); ("ceq", e); ("feq", fe); ("feq2", fe);
+     ("ieq", e); ("iceq", e); ("ifeq", fe); ("ifeq2", fe)].
+
+(** strings (UTF-8 bytes) *)
+Definition c16_str (l r : list Z) : string :=
+  let e := sh_ob (eq_str_m l r) in
+  let c := sh_oo (cmp_str_m l r) in
+  let oe := four (option_eq_m eq_str_m) sh_ob l r in
+  let oc := four (option_cmp_m cmp_str_m) sh_oo l r in
+  let coe := four (option_eq_m const_eq_str_m) sh_ob l r in
+  let coc := four (option_cmp_m const_cmp_str_m) sh_oo l r in
+  show_fields
+    [("eq", e); ("cmp", c);
+     ("ceq", sh_ob (const_eq_str_m l r)); ("ccmp", sh_oo (const_cmp_str_m l r));
+     ("oeq", oe); ("ocmp", oc); ("coeq", coe); ("cocmp", coc); ("foeq", coe); ("focmp", coc);
+     ("aeq", sh_assert_eq (const_eq_str_m l r)); ("ane", sh_assert_ne (const_eq_str_m l r))].
+
+(** slices of strings / of byte slices *)
+Definition c16_sseq (eqm : list (list Z) -> list (list Z) -> option bool)
+    (cmpm : list (list Z) -> list (list Z) -> option comparison)
+    (eqE : list Z -> list Z -> option bool) (cmpE : list Z -> list Z -> option comparison)
+    (l r : list (list Z)) : string :=
+  let e := sh_ob (eqm l r) in
+  let c := sh_oo (cmpm l r) in
+  let fe := sh_ob (eq_for_slice_m eqE l r) in
+  let fc := sh_oo (cmp_for_slice_m cmpE l r) in
+  let oe := four (option_eq_m eqm) sh_ob l r in
+  let oc := four (option_cmp_m cmpm) sh_oo l r in
+  show_fields
+    [("eq", e); ("cmp", c); ("ceq", e); ("ccmp", c);
+     ("feq", fe); ("feqp", fe); ("fcmp", fc); ("fcmpp", fc);
+     ("oeq", oe); ("ocmp", oc); ("coeq", oe); ("cocmp", oc)].
+
+Definition as_ordering (v : val) : comparison :=
+  let z := as_Z v in if (z <? 0)%Z then Lt else if (z =? 0)%Z then Eq else Gt.
+
+Definition c16_ordering (a b : comparison) : string :=
+  let e := show_bool (eq_ordering_m a b) in
+  let c := sh_ord (cmp_ordering_m a b) in
+  let oe := four (option_eq_m (fun x y => Some (eq_ordering_m x y))) sh_ob a b in
+  let oc := four (option_cmp_m (fun x y => Some (cmp_ordering_m x y))) sh_oo a b in
+  show_fields
+    [("eq", e); ("cmp", c); ("ceq", e); ("ccmp", c);
+     ("oeq", oe); ("ocmp", oc); ("coeq", oe); ("cocmp", oc); ("foeq", oe); ("focmp", oc)].
+
+(** the harness's user type [Pt { x: i8, name: &str, tag: Option<u8> }] with [impl_cmp!]:
+    const_eq = const_eq!(x) && const_eq!(name) && const_eq!(tag);
+    const_cmp = try_equal!(const_cmp!(x)); try_equal!(const_cmp!(name)); try_equal!(const_cmp!(tag)) *)
+Definition pt : Type := (Z * list Z * option Z)%type.
+Definition pt_x (p : pt) : Z := fst (fst p).
+Definition pt_name (p : pt) : list Z := snd (fst p).
+Definition pt_tag (p : pt) : option Z := snd p.
+Definition pt_eq (p q : pt) : option bool :=
+  lazy_and_m (lazy_and_m (Some (const_eq_prim_m (pt_x p) (pt_x q)))
+                         (const_eq_str_m (pt_name p) (pt_name q)))
+             (option_eq_m prim_eq_o (pt_tag p) (pt_tag q)).
+Definition pt_cmp (p q : pt) : option comparison :=
+  try_equal_m (Some (const_cmp_prim_m (pt_x p) (pt_x q)))
+    (try_equal_m (const_cmp_str_m (pt_name p) (pt_name q))
+       (try_equal_m (option_cmp_m prim_cmp_o (pt_tag p) (pt_tag q)) (Some Eq))).
+Definition as_opt (v : val) : option Z :=
+  match as_list v with [] => None | x :: _ => Some (as_Z x) end.
+
+Definition c16_user (p q : pt) : string :=
+  let ls := [p; q] in
+  let rs := [p; p] in
+  let keyx_eq (a b : pt) := prim_eq_o (pt_x a) (pt_x b) in
+  let keyx_cmp (a b : pt) := prim_cmp_o (pt_x a) (pt_x b) in
+  let keyn_cmp (a b : pt) := const_cmp_str_m (pt_name a) (pt_name b) in
+  show_fields
+    [("ceq", sh_ob (pt_eq p q)); ("ccmp", sh_oo (pt_cmp p q));
+     ("feq", sh_ob (eq_for_slice_m pt_eq ls rs)); ("fcmp", sh_oo (cmp_for_slice_m pt_cmp ls rs));
+     ("fkeq", sh_ob (eq_for_slice_m keyx_eq ls rs)); ("fkcmp", sh_oo (cmp_for_slice_m keyx_cmp ls rs));
+     ("foeq", four (option_eq_m pt_eq) sh_ob p q); ("focmp", four (option_cmp_m pt_cmp) sh_oo p q);
+     ("fokcmp", four (option_cmp_m keyn_cmp) sh_oo p q)].
+
+(** arrays [T; 2], by value and behind references: coerced to slices *)
+Definition c16_array (l r : list Z) : string :=
+  let e := sh_ob (const_eq_slice_m l r) in
+  let c := sh_oo (const_cmp_slice_m l r) in
+  show_fields [("ceq", e); ("ccmp", c); ("rceq", e); ("rccmp", c)].
+
+Definition as_seqs (v : val) : list (list Z) := map as_bytes (as_list v).
+
+Definition c16_run (fam : string) (args : list val) : option string :=
+  if String.eqb fam "c16.slice" then
+    match args with [_; l; r] => Some (c16_slice (as_bytes l) (as_bytes r)) | _ => None end
+  else if String.eqb fam "c16.scalar" then
+    match args with [_; a; b] => Some (c16_scalar (as_Z a) (as_Z b)) | _ => None end
+  else if String.eqb fam "c16.nonzero" then
+    match args with [_; a; b] => Some (c16_nonzero (as_Z a) (as_Z b)) | _ => None end
+  else if String.eqb fam "c16.range" then
+    match args with [_; l; r] => Some (c16_range (as_pair l) (as_pair r)) | _ => None end
+  else if String.eqb fam "c16.str" then
+    match args with [l; r] => Some (c16_str (as_bytes l) (as_bytes r)) | _ => None end
+  else if String.eqb fam "c16.sstr" then
+    match args with
+    | [l; r] => Some (c16_sseq eq_slice_str_m cmp_slice_str_m eq_str_m cmp_str_m (as_seqs l) (as_seqs r))
+    | _ => None
+    end
+  else if String.eqb fam "c16.sbytes" then
+    match args with
+    | [l; r] => Some (c16_sseq eq_slice_bytes_m cmp_slice_bytes_m eq_slice_m cmp_slice_m (as_seqs l) (as_seqs r))
+    | _ => None
+    end
+  else if String.eqb fam "c16.slice_u8_alias" then
+    match args with [l; r] => Some (c16_slice_alias (as_bytes l) (as_bytes r)) | _ => None end
+  else if String.eqb fam "c16.array" then
+    match args with [_; l; r] => Some (c16_array (as_bytes l) (as_bytes r)) | _ => None end
+  else if String.eqb fam "c16.user" then
+    match args with
+    | [x1; n1; t1; x2; n2; t2] =>
+        Some (c16_user (as_Z x1, as_bytes n1, as_opt t1) (as_Z x2, as_bytes n2, as_opt t2))
+    | _ => None
+    end
+  else if String.eqb fam "c16.ordering" then
+    match args with [a; b] => Some (c16_ordering (as_ordering a) (as_ordering b)) | _ => None end
+  else if String.eqb fam "c16.laws" then
+    (* order laws over all pairs/triples of a finite domain: the model satisfies them by
+       theorem (Properties/C16.v), so the expected summary is always "ok" *)
+    Some "ok"
+  else if String.eqb fam "c16.marker" then
+    Some (show_bool eq_marker_m ++ sh_ord cmp_marker_m ++ show_bool eq_marker_m ++ sh_ord cmp_marker_m)
+  else None.
